@@ -97,9 +97,9 @@ func main() {
 			if !*fake && k == *reps-2 {
 				// scripted: leaders that exit and leave a child holding their output; the first two are met only by the
 				// Kill of the clean-up, the others by a Terminate (group observed afterwards)
-				opt.Procs = 6
+				opt.Procs = 7
 				opt.Fixed = []supv.FixedProc{{Beh: "orphan0", Delay: 0}, {Beh: "orphan0", Delay: 30}, {Beh: "orphan0", Delay: 80}, {Beh: "fork", Delay: 0},
-					{Beh: "orphanq", Delay: 0}, {Beh: "orphanq", Delay: 80}}
+					{Beh: "orphanq", Delay: 0}, {Beh: "orphanq", Delay: 80}, {Beh: "exit137", Delay: 30}}
 			}
 			if *fake {
 				opt.Fake = func(r *rec.Recorder) supvmodel.ProcessSupervisor { return stack.NewFakeSupWithRules(r) }
